@@ -311,6 +311,11 @@ fn string_to_kind_and_id(s: &str) -> Result<(AddressKind, Id)> {
     // also accept the bech32m one.
     let parsed = CheckedHrpstring::new::<bech32::Bech32>(s)
         .map_err(|_| Error::InvalidAddress(s.to_owned()))?;
+    // Regrouping of the 5 bit groups into bytes must leave at most 4 zero bits of padding
+    // (same rule for any bech32 payload), otherwise more than one string decodes to an address.
+    parsed
+        .validate_segwit_padding()
+        .map_err(|_| Error::InvalidAddress(s.to_owned()))?;
     let data: Vec<u8> = parsed.byte_iter().collect();
 
     let kind = parsed.hrp().as_str().parse()?;
